@@ -228,6 +228,13 @@ def actionOfJson (j : Json) : P Action := do
   | "reply" =>
     let tables ← jList jStr (← jField j "tables")
     return .reply (← jFieldD j "purge" jBool false) (initialOf tables (← storeOfJson (← jField j "db")))
+  | "disconnect" => return .disconnect
+  | "reBegin" => return .reBegin (← jNat (← jField j "monitors"))
+  | "reReply" =>
+    let tables ← jList jStr (← jField j "tables")
+    return .reReply (← jNat (← jField j "monitors")) (← jFieldD j "found" jBool false)
+      (initialOf tables (← storeOfJson (← jField j "db")))
+  | "reEnd" => return .reEnd
   | s => throw s!"bad action {s}"
 
 /-- {strict, pinned, deferring, actions} -> cache rows, failed flag and event log after the run -/
@@ -236,7 +243,8 @@ def clientProtocolFn (j : Json) : P Json := do
   let pinned ← jFieldD j "pinned" jBool false
   let deferring ← jFieldD j "deferring" jBool true
   let acts ← jList actionOfJson (← jField j "actions")
-  let s := run strict pinned { deferring := deferring } acts
+  let rows ← jFieldD j "rows" storeOfJson []
+  let s := run strict pinned { deferring := deferring, cache := { rows := rows } } acts
   return Json.mkObj [("rows", storeToJson s.cache.rows), ("failed", .bool s.failed), ("deferring", .bool s.deferring),
     ("events", listToJson eventToJson s.cache.log)]
 
